@@ -11,6 +11,7 @@ from ..core import Violation
 from ..gen import prob
 from ..observe import run_async, run_sync
 from ..sched import run_scheduled
+from ..observe import arun as _arun
 
 ID = "C10"
 LEVEL = "exploration"
@@ -176,7 +177,7 @@ def check_case(case, ev):
             if runner_kind == "sync":
                 return SyncRunner().map(g, v, **kw)
             if runner_kind == "async":
-                return asyncio.run(AsyncRunner().map(g, v, max_concurrency=case["mc"], **kw))
+                return _arun(AsyncRunner().map(g, v, max_concurrency=case["mc"], **kw))
             out, sched = run_scheduled(c, g, v, case["sched"], adversarial=case["adversarial"], method="map", max_concurrency=case["mc"], **kw)
             if out.status == "deadlock":
                 raise Violation("c10.deadlock", f"[{tag}] {out.error}")
